@@ -17,10 +17,18 @@ theorem commands_all_true : Gen.Pop3.commandVals.all (· == "true") = true := by
 /-- distinct keys ↦ distinct verbs: `verbOf` is the map lookup -/
 theorem commands_keys_nodup : (commands.map (·.1)).Nodup ∧ (commands.map (·.2)).Nodup := by decide
 
-/-- the `case` labels of the AUTHORIZATION handler's command table are the verbs `authH` treats specially; the rest is `default` -/
-theorem auth_cases_tie : Gen.Pop3.authCases = some (authCases.map keyOf, true) := by decide
-/-- the `case` labels of the TRANSACTION handler's command table -/
-theorem trans_cases_tie : Gen.Pop3.transCases = some (transCases.map keyOf, true) := by decide
+/-- the regenerated table (command words, default?) has exactly the keys of the model's verbs `vs` — as a set: the
+    words come sorted, read off the executed paths of the handler (a switch, an if-chain or a table moved into a helper are
+    the same table) — and a default -/
+def sameKeys (g : Option (List Bytes × Bool)) (vs : List Verb) : Bool :=
+  match g with
+  | some (ls, true) => ls.all ((vs.map keyOf).contains ·) && ls.length == vs.length && decide ls.Nodup
+  | _ => false
+
+/-- the command words the AUTHORIZATION handler treats specially are the verbs `authH` treats specially; the rest is `default` -/
+theorem auth_cases_tie : sameKeys Gen.Pop3.authCases authCases = true := by decide
+/-- the command words of the TRANSACTION handler's table -/
+theorem trans_cases_tie : sameKeys Gen.Pop3.transCases transCases = true := by decide
 
 /-- every verb outside the case lists gets the `default` answer (-ERR out of sequence) and changes nothing -/
 theorem auth_default (store : Bytes → List Msg) (s : St) (v : Verb) (args : List Bytes) (h : v ∉ authCases) :
@@ -33,9 +41,11 @@ theorem trans_default (s : St) (v : Verb) (args : List Bytes) (h : v ∉ transCa
 /-- the command loop hands AUTHORIZATION and TRANSACTION to a handler(cmd, args) (found by that dispatch, not by name) -/
 theorem dispatch_states_tie : Gen.Pop3.dispatchStates = ["AUTHORIZATION", "TRANSACTION"] := by decide
 
-/-- CAPA is answered before the empty-command test and the command-set test ($cmd = the command word the loop hands
-    to the handlers); the loop runs while `state != QUIT && sendError == nil` ($s = the session) -/
-theorem loop_tests_tie : Gen.Pop3.loopTests = ["$cmd == \"CAPA\"", "$cmd == \"\"", "!commands[$cmd]"] := by decide
+/-- a command reaches the state dispatch after CAPA, then the empty command, then the command-set test have let it
+    through, in this order ($cmd = the command word the loop hands to the handlers; every path of the loop body that
+    reaches the dispatch has decided exactly this); the loop runs while `state != QUIT && sendError == nil` ($s = the
+    session) -/
+theorem loop_tests_tie : Gen.Pop3.loopTests = ["$cmd != \"CAPA\"", "$cmd != \"\"", "commands[$cmd]"] := by decide
 theorem loop_cond_tie : Gen.Pop3.loopCond = "$s.state != QUIT && $s.sendError == nil" := by decide
 
 /-- the package touches the store in two ways only, whatever the helpers in between are called: the mailbox is loaded
@@ -43,7 +53,7 @@ theorem loop_cond_tie : Gen.Pop3.loopCond = "$s.state != QUIT && $s.sendError ==
     (RemoveMessage) from the QUIT clause of the TRANSACTION handler and nowhere else — not from another clause, not
     from the loop (idle timeout, EOF), not from a state change -/
 theorem store_reach_tie :
-    Gen.Pop3.storeReach = [("AUTHORIZATION", "PASS", "GetMessages"), ("AUTHORIZATION", "APOP", "GetMessages"),
+    Gen.Pop3.storeReach = [("AUTHORIZATION", "APOP", "GetMessages"), ("AUTHORIZATION", "PASS", "GetMessages"),
                            ("TRANSACTION", "QUIT", "RemoveMessage")] := by decide
 /-- every numeric argument is parsed with ParseInt(·, 10, 32) -/
 theorem parse_int_tie : Gen.Pop3.parseIntArgs = ["10,32"] := by decide
